@@ -259,12 +259,12 @@ namespace
                     }
                     else
                     {
-                        runtime.__logmsg(logmessage::runtime::TypeMissmatch((*frame.current())->diag_info(), t_boolean(), res->type()));
+                        runtime.__logmsg(logmessage::runtime::TypeMissmatch(frame.diag_info_from_position(), t_boolean(), res->type()));
                     }
                 }
                 else
                 {
-                    runtime.__logmsg(logmessage::runtime::CallstackFoundNoValue((*frame.current())->diag_info(), "configClasses"s));
+                    runtime.__logmsg(logmessage::runtime::CallstackFoundNoValue(frame.diag_info_from_position(), "configClasses"s));
                 }
                 if (++m_iterator_current == m_confignav.end())
                 {
@@ -331,12 +331,12 @@ namespace
                     }
                     else
                     {
-                        runtime.__logmsg(logmessage::runtime::TypeMissmatch((*frame.current())->diag_info(), t_boolean(), res->type()));
+                        runtime.__logmsg(logmessage::runtime::TypeMissmatch(frame.diag_info_from_position(), t_boolean(), res->type()));
                     }
                 }
                 else
                 {
-                    runtime.__logmsg(logmessage::runtime::CallstackFoundNoValue((*frame.current())->diag_info(), "configClasses"s));
+                    runtime.__logmsg(logmessage::runtime::CallstackFoundNoValue(frame.diag_info_from_position(), "configClasses"s));
                 }
                 if (++m_iterator_current == m_confignav.end())
                 {
